@@ -127,12 +127,42 @@ class Ref:
         self.place = place
 
 
+SELF_PLACE = Place('@self', [])
+
 class ValRef:
-    """reference to an rvalue without a home (e.g. &str constants): holds the value itself"""
+    """reference to an rvalue without a home (e.g. &str constants): holds the value itself.  `frame`/`place` make it usable wherever
+    a model writes through `m.write_place(r.frame, r.place, ..)`: the write replaces the held value"""
     __slots__ = ('v',)
 
     def __init__(self, v):
         self.v = v
+
+    @property
+    def frame(self):
+        return self
+
+    @property
+    def place(self):
+        return SELF_PLACE
+
+    def setv(self, val):
+        self.v = val
+
+
+class FnRef(ValRef):
+    """`&mut` into the middle of a container (e.g. the result of `last_mut`, `get_or_insert_with`): reads and writes go through
+    a getter / setter pair, so that a write is seen by the container's owner"""
+    __slots__ = ('get', 'set')
+
+    def __init__(self, get, set):
+        self.get, self.set = get, set
+
+    @property
+    def v(self):
+        return self.get()
+
+    def setv(self, val):
+        self.set(val)
 
 
 class Iter:
@@ -148,7 +178,12 @@ def is_sym(v):
 
 
 def bv(v, w):
-    return v if is_sym(v) else z3.BitVecVal(v, w)
+    if not is_sym(v):
+        return z3.BitVecVal(v, w)
+    if z3.is_bv(v) and v.size() != w:
+        # a symbolic char (CH bits) meeting a narrower / wider integer type: zero-extend or truncate to the operation's width
+        return z3.ZeroExt(w - v.size(), v) if v.size() < w else z3.Extract(w - 1, 0, v)
+    return v
 
 
 # ---------------------------------------------------------------- explorer
@@ -284,7 +319,7 @@ class Machine:
 
     # ---- places
     def read_place(self, fr, pl):
-        v = fr.locals.get(pl.local)
+        v = fr.v if isinstance(fr, ValRef) else fr.locals.get(pl.local)
         for pr in pl.proj:
             v = self.project(v, pr, fr)
         return v
@@ -298,6 +333,8 @@ class Machine:
                 return v.v
             if isinstance(v, Closure):
                 return v          # closure bodies read captures through `(*_1).k` or `_1.k` alike
+            if isinstance(v, (RStr, list)) or type(v).__name__ == 'RVec':
+                return v          # a slice / str value standing for the reference to it (models return these for `&[T]` items)
             raise Unsupported(f'deref of {v!r}')
         if k == 'field':
             if isinstance(v, Lazy):
@@ -309,20 +346,35 @@ class Machine:
             raise Unsupported(f'field of {v!r}')
         if k == 'downcast':
             return v
+        if k in ('index', 'constidx'):
+            i = fr.locals.get(pr[1]) if k == 'index' else pr[1]
+            if is_sym(i):
+                raise Unsupported('indexing with a symbolic index')
+            seq = v.items if hasattr(v, 'items') else (v.cs if isinstance(v, RStr) else v)
+            if isinstance(v, RStr) and any((not is_sym(c)) and c > 127 for c in seq):
+                raise Unsupported('byte indexing into a non-ASCII string')
+            if not isinstance(seq, (list, tuple)):
+                raise Unsupported(f'index into {v!r}')
+            if i >= len(seq):
+                raise Panic(f'index out of bounds: the len is {len(seq)} but the index is {i}')
+            return seq[i]
         raise Unsupported(f'projection {pr}')
 
     def write_place(self, fr, pl, val):
         if not pl.proj:
-            fr.locals[pl.local] = val
+            if isinstance(fr, ValRef):
+                fr.setv(val)
+            else:
+                fr.locals[pl.local] = val
             return
         # find container
         *init, last = pl.proj
         if last[0] == 'deref':
             r = self.read_place(fr, Place(pl.local, init))
-            if isinstance(r, Ref):
+            if isinstance(r, (Ref, ValRef)):
                 self.write_place(r.frame, r.place, val)
                 return
-            raise Unsupported('write through valref')
+            raise Unsupported(f'write through {r!r}')
         cont = self.read_place(fr, Place(pl.local, init))
         if last[0] == 'field':
             if isinstance(cont, (Struct, Enum)):
@@ -440,10 +492,53 @@ class Machine:
                     return not a
                 if z3.is_bool(a):
                     return z3.Not(a)
+                w_ = INTW.get(self.type_of(fr, rv[2]) or '', 64)
+                if isinstance(a, int):
+                    return (~a) % (1 << w_)
+                if is_sym(a):
+                    return ~a
+            if rv[1] == 'Neg':
+                w_ = INTW.get(self.type_of(fr, rv[2]) or '', 64)
+                if isinstance(a, int):
+                    return (-a) % (1 << w_)
+                if is_sym(a):
+                    return -a
+            if rv[1] == 'PtrMetadata':
+                # length of the slice / str behind a fat pointer
+                from . import models2
+                d = models2.deref_all(self, a)
+                if isinstance(d, RStr):
+                    from .models import blen
+                    return blen(self, d.cs)
+                if hasattr(d, 'items'):
+                    return len(d.items)
+                if isinstance(d, (list, tuple)):
+                    return len(d)
             raise Unsupported(f'unop {rv}')
         if k == 'cast':
             v = self.operand(fr, rv[1])
-            return v  # int-to-int casts within range; refined in the real engine
+            to = rv[2].strip() if len(rv) > 2 and isinstance(rv[2], str) else ''
+            if rv[3:] and str(rv[3]).startswith('IntToInt') and to in INTW:
+                frm = self.type_of(fr, rv[1]) or ''
+                if isinstance(v, bool):
+                    return int(v)
+                if isinstance(v, int):
+                    m_ = 1 << INTW.get(frm, 64)
+                    if frm.startswith('i') and v >= m_ // 2:
+                        v -= m_                      # sign-extend, then truncate to the target width
+                    return v % (1 << INTW[to])
+                if is_sym(v) and z3.is_bv(v):
+                    fw, tw = v.size(), (CH if to == 'char' else INTW[to])
+                    # symbolic integers and chars live in CH/width-sized vectors; narrowing truncates, widening extends
+                    if frm in INTW and INTW[frm] < fw and frm != 'char':
+                        v = z3.Extract(INTW[frm] - 1, 0, v)
+                        fw = INTW[frm]
+                    if tw < fw:
+                        return z3.Extract(tw - 1, 0, v)
+                    if tw > fw:
+                        return z3.SignExt(tw - fw, v) if frm.startswith('i') else z3.ZeroExt(tw - fw, v)
+                    return v
+            return v
         raise Unsupported(f'rvalue {rv}')
 
     def make_variant(self, path, fields):
@@ -476,16 +571,40 @@ class Machine:
                 return f(a if is_sym(a) else z3.BoolVal(a), b if is_sym(b) else z3.BoolVal(b))
         if not is_sym(a) and not is_sym(b):
             m = (1 << w)
+            sa, sb = a, b
+            if signed:          # values are kept modulo 2^w: reinterpret for order, division and shifts
+                sa = a - m if a >= m // 2 else a
+                sb = b - m if b >= m // 2 else b
             if op == 'Eq': return a == b
             if op == 'Ne': return a != b
-            if op == 'Lt': return a < b
-            if op == 'Le': return a <= b
-            if op == 'Gt': return a > b
-            if op == 'Ge': return a >= b
+            if op == 'Lt': return sa < sb
+            if op == 'Le': return sa <= sb
+            if op == 'Gt': return sa > sb
+            if op == 'Ge': return sa >= sb
             if op == 'Add': return (a + b) % m
             if op == 'Sub': return (a - b) % m
-            if op == 'AddWithOverflow': return ((a + b) % m, a + b >= m)
-            if op == 'SubWithOverflow': return ((a - b) % m, a - b < 0)
+            if op == 'Mul': return (sa * sb) % m
+            if op == 'AddWithOverflow':
+                r = sa + sb
+                return (r % m, not (-(m // 2) <= r < m // 2) if signed else r >= m)
+            if op == 'SubWithOverflow':
+                r = sa - sb
+                return (r % m, not (-(m // 2) <= r < m // 2) if signed else r < 0)
+            if op == 'MulWithOverflow':
+                r = sa * sb
+                return (r % m, not (-(m // 2) <= r < m // 2) if signed else r >= m)
+            if op in ('Div', 'Rem'):
+                if sb == 0:
+                    raise Panic('attempt to divide by zero' if op == 'Div' else 'attempt to calculate the remainder with a divisor of zero')
+                q = abs(sa) // abs(sb) * (1 if (sa < 0) == (sb < 0) else -1)      # Rust truncates towards zero
+                return (q % m) if op == 'Div' else ((sa - q * sb) % m)
+            if op == 'BitAnd': return a & b
+            if op == 'BitOr': return a | b
+            if op == 'BitXor': return a ^ b
+            if op in ('Shl', 'ShlUnchecked'): return (a << (b % w)) % m
+            if op in ('Shr', 'ShrUnchecked'): return (sa >> (b % w)) % m
+            if op == 'Cmp':
+                return Enum((0 if sa == sb else (1 if sa > sb else 255)), [], {0: 'Equal', 1: 'Greater', 255: 'Less'}[0 if sa == sb else (1 if sa > sb else 255)])
             raise Unsupported('binop ' + op)
         ww = CH if ty == 'char' else w
         A, B = bv(a, ww), bv(b, ww)
@@ -495,6 +614,26 @@ class Machine:
         if op == 'Le': return (A <= B) if signed else z3.ULE(A, B)
         if op == 'Gt': return (A > B) if signed else z3.UGT(A, B)
         if op == 'Ge': return (A >= B) if signed else z3.UGE(A, B)
+        if op == 'Add': return A + B
+        if op == 'Sub': return A - B
+        if op == 'Mul': return A * B
+        if op == 'BitAnd': return A & B
+        if op == 'BitOr': return A | B
+        if op == 'BitXor': return A ^ B
+        if op in ('Shl', 'ShlUnchecked'): return A << B
+        if op in ('Shr', 'ShrUnchecked'): return (A >> B) if signed else z3.LShR(A, B)
+        if op == 'AddWithOverflow':
+            ovf = z3.Not(z3.BVAddNoOverflow(A, B, signed)) if not signed else z3.Or(z3.Not(z3.BVAddNoOverflow(A, B, True)), z3.Not(z3.BVAddNoUnderflow(A, B)))
+            return (A + B, ovf)
+        if op == 'SubWithOverflow':
+            ovf = z3.Not(z3.BVSubNoUnderflow(A, B, signed)) if not signed else z3.Or(z3.Not(z3.BVSubNoOverflow(A, B)), z3.Not(z3.BVSubNoUnderflow(A, B, True)))
+            return (A - B, ovf)
+        if op in ('Div', 'Rem'):
+            if self.ctx.decide(B == 0):
+                raise Panic('attempt to divide by zero' if op == 'Div' else 'attempt to calculate the remainder with a divisor of zero')
+            if op == 'Div':
+                return (A / B) if signed else z3.UDiv(A, B)
+            return z3.SRem(A, B) if signed else z3.URem(A, B)
         raise Unsupported('sym binop ' + op)
 
     # ---- calls
